@@ -32,6 +32,11 @@ CLAIMED = {
         "check_ref_format agrees with git check-ref-format on every byte string of length 1..6 (7-8 thorough) and on every name built around '.lock', '@{', '..', '//' with up to 4 free bytes (names up to 9 bytes). The reference model is validated against the installed git binary (tools/validate_git_models.py). Backend contract: one operation of every kind (conditional/unconditional set, create, delete, symbolic ref, pack_refs) with every argument combination, from every state over {HEAD, refs/heads/a, refs/heads/a/b, refs/tags/t} in which refs are absent/loose/packed/loose-over-packed/symbolic, on the real DiskRefsContainer in a real directory (and DictRefsContainer on direct refs), leaves exactly the result, refs, symrefs the map model predicts, also for a re-opened container, and no lock file; the post-state is again a model state, so by induction sequences of any length over this state space are covered. Three genuine defects found by this check were repaired (fix: d4f5845, af3e34d, a38d673). Reftable/namespaced backends and peeled tags are not covered.",
         "Trusted: z3, ksym, the reference model of git's rules (validated against git 2.39.5 on 3000 random names).",
     ),
+    "C18": (
+        "bounded symbolic exploration of checkout/stage/status on real work trees (ksym): tree contents, entry kinds, edit sequences and targets are solver-forked; oracle = directory scan and reference three-way comparison",
+        "For every tree over {f, d/g, a non-UTF-8 name, d/h} with entries absent / file / executable / symlink / empty / longer file: reset --hard materialises exactly the tree (contents, symlink targets, executable bits), status is clean, and staging everything reproduces the tree id; for every pair of trees over three of those paths a switch leaves exactly the second tree with clean status and matching index (mode-only, type, add/remove changes); after one or two edits on a target path from {modify same/other size, chmod, delete, add untracked, replace by symlink, stage, unstage, rm --cached} (each with a distinct timestamp) status' staged/unstaged/untracked sets equal the reference comparison of HEAD, index and a directory scan. One genuine defect was repaired (889f888); one is a known finding (executable-bit-only changes are not reported as unstaged). File<->directory replacements, large files, line-ending conversion and agreement with the git binary are not covered.",
+        "Trusted: z3 (forking), ksym, the kernel file system on /dev/shm; edits are given distinct timestamps (no racy-git ambiguity).",
+    ),
     "C19": (
         "bounded symbolic execution of the real pkt-line/side-band code (ksym) with symbolic stream contents, cut positions and recv sizes",
         "All 2^32 length prefixes decided in one run; PktLineParser and Protocol.read_pkt_line agree with an independent reference parser on every byte string of up to 7 bytes (9 thorough) and under every pair of cut positions; ReceivableProtocol.read/recv deliver the stream in order for every symbolic recv-size schedule over 3 calls; BufferedPktLineWriter output equals the concatenated frames around the buffer boundary; capability/ref/cmd lines and side-band demultiplexing round-trip. Payloads near the 65520-byte limit need symbolic lengths (opaque ropes) and are not covered yet.",
